@@ -15,14 +15,14 @@ REPO = os.environ.get("VERIF_REPO", "/repo")
 SUPPLEMENTARY = {"miri", "nohooks", "stdbuild", "constrained", "fvbuild"}
 
 PROPS = {
-    "C01": {"level": "exploration", "stages": ["native"]},
+    "C01": {"level": "exploration", "stages": ["native", "constrained"]},
     "C02": {"level": "exploration", "stages": ["native", "nohooks", "fvbuild"]},
     "C03": {"level": "exploration", "stages": ["native", "fvbuild"]},
     "C04": {"level": "fault_enumeration", "stages": ["native", "fvbuild"]},
     "C05": {"level": "exploration", "stages": ["native"]},
     "C06": {"level": "exploration", "stages": ["native", "nohooks", "constrained", "miri"]},
     "C07": {"level": "exploration", "stages": ["native"]},
-    "C08": {"level": "exploration", "stages": ["native"]},
+    "C08": {"level": "exploration", "stages": ["native", "constrained"]},
     "C09": {"level": "exploration", "stages": ["native", "fvbuild"]},
     "C10": {"level": "exploration", "stages": ["native", "constrained"]},
     "C11": {"level": "fault_enumeration", "stages": ["native", "nohooks", "constrained", "miri"]},
@@ -159,6 +159,18 @@ class Run:
         ],
         # aux data: builds in which the top tree of a key has the maximum height the build allows
         # (its leaf level is then cached) and builds with fewer levels
+        # released signatures must verify in every build, also where the limits differ per level
+        "C01": [
+            ("L2-h5-10-w4-4", 2, "5, 10", "4, 4", True),
+            ("L3-h10-5-5-w8-4-2", 3, "10, 5, 5", "8, 4, 2", True),
+            ("L2-h10-5", 2, "10, 5", "1, 1", False),
+        ],
+        # keys have the same bytes in every build
+        "C08": [
+            ("L3-h10-5-5-w8-4-2", 3, "10, 5, 5", "8, 4, 2", True),
+            ("L1", 1, "25", "1", True),
+            ("L5", 5, "25, 25, 25, 25, 25", "1, 1, 1, 1, 1", False),
+        ],
         # key bytes and parameter lists beyond what the build supports are malformed input there
         "C11": [
             ("L1", 1, "25", "1", True),
